@@ -47,8 +47,9 @@ STORE_RULE = ('histories of 1..size calls over add_node/add_nodes/add_edge/add_e
               'new_from_nodes_and_edges drawn from one splitmix64 stream per case (VERIF_SEED), uniformly over the 96 '
               'GraphSpecs combinations, 2-5 names out of 1..9 in shuffled order (sort order != insertion order), '
               '~35-55% repeated pairs (either orientation), 15-30% self-loops, an absent name, NaN/integer weights, '
-              'attribute tags; a case is non-trivial when at least one edge is stored at the end; distinct = distinct '
-              'request lines')
+              'attribute tags; profile "big": 10-16 names out of 1..30, two or three hubs touched by most edges (adjacency lists longer than 8), '
+              'histories of 20-60 calls, the universe of per-pair queries = the hubs, one other node and an absent name; '
+              'a case is non-trivial when at least one edge is stored at the end; distinct = distinct request lines')
 
 COMMON_ASSUME = ['the Lean model is hand-written; it is tied to the Rust source only by the correspondence run (sampled)',
                  'node names are u32 in the harness; the code is generic in T (parametricity of safe Rust)',
@@ -130,7 +131,7 @@ def sp_nontrivial(req, I):
 
 SP_RULE = ('random graphs of all 8 kinds (directed x multi-edge x self-loops) with 1..size nodes (names shuffled), four density '
            'shapes incl. two components, integer weights 0..4 / 1..4 / unweighted, parallel edges with different weights; '
-           'target in {None, a node, an absent name}, cutoff in halves 0..6, first_only, with_paths; every node as source through '
+           'target in {None, a node, an absent name}, cutoff in halves 0..6 (parallel profile: 21-40 nodes, a third of them long weighted chains with chords, cutoff up to 3n), first_only, with_paths; every node as source through '
            'single_source, multi_source and all_pairs; non-trivial = some source reaches another node')
 
 PROPS.update({
@@ -161,7 +162,7 @@ def cen_hist(req, I):
 
 
 CEN_RULE = ('random graphs of all 8 kinds, 1..size nodes (plus a few with 21-36 nodes that take the parallel path), positive integer '
-            'weights 1..4 when weighted, several density shapes incl. disconnected graphs, parallel edges, self-loops; raw+normalized / '
+            'weights 1..4 when weighted - handed to the implementation divided by 1, 2 or 4, so that it also sees non-integer weights (betweenness is scale-invariant, closeness scales) - several density shapes incl. disconnected graphs, parallel edges, self-loops; raw+normalized / '
             'plain+Wasserman-Faust; the definition-level specification (path enumeration) is evaluated for graphs of at most 8 nodes; '
             'non-trivial = some node has a non-zero value')
 
@@ -235,7 +236,7 @@ PROPS.update({
 
 LOUV_RULE = ('random graphs of all 8 kinds with 2..size nodes and at least one edge (positive integer weights or unweighted, parallel '
              'edges, self-loops, several components) and - profile "ties" - paths, cycles and circulant graphs whose candidate communities '
-             'tie exactly; resolutions 1/2..2, seeds 0..999; every call runs under a watchdog (8 s); non-trivial = more than one node '
+             'tie exactly, profile "strand": dense DAG-like directed graphs of 3-6 nodes with resolutions 1.1..2 (nodes left behind in a community they have no edge into); resolutions 1/2..2, seeds 0..999; every call runs under a watchdog (8 s); non-trivial = more than one node '
              'ends up in one community')
 
 PROPS.update({
